@@ -113,7 +113,11 @@ SeedScript(k) ==
     [] k = 7  -> << MNew(1, "tpoly"), AddV(1), Cr("create_persistent", 1, 1, "V", "int", "a"),
                     Cr("create_shared", 1, 2, "V", "int", "b"), MNew(2, "thex"), Cr("create_shared", 2, 3, "V", "int", "a") >>
     (* ---- handles of EVERY entity kind held on the target (and the source) across an assignment ---- *)
-    [] k = 20 -> << MNew(1, "poly") >> \o Tet(1) \o << MNew(2, "poly") >> \o Seg(2) \o
+    [] k = 20 -> << MNew(1, "poly") >> \o Tet(1) \o
+                 << Cr("create_persistent", 1, 1, "F", "int", "a"), Wr(1, 3, 1), HDrop(1),
+                    Cr("create_persistent", 1, 1, "C", "bool", "b"), Wr(1, 0, 1), HDrop(1),
+                    Cr("create_persistent", 1, 1, "E", "int", "b"), Wr(1, 5, 1), HDrop(1),
+                    MNew(2, "poly") >> \o Seg(2) \o
                  << Cr("create_persistent", 2, 1, "HF", "int", "a"), Cr("create_shared", 2, 2, "F", "int", "b"),
                     Cr("create_private", 2, 3, "C", "bool", ""), Cr("create_persistent", 2, 4, "E", "bool", "a") >>
     [] k = 21 -> << MNew(1, "poly") >> \o Tri(1) \o << MNew(2, "tet") >> \o Tet(2) \o
